@@ -59,6 +59,8 @@ class Style:
         return cls(d['notation'], d['case'], d['alert'], d['spaces'])
 
 
+from sim.core import current_sim as core_current_sim  # noqa: E402
+
 ALERTS = (' Alert.', ' alert. ', '  Alert. ')
 
 
@@ -67,7 +69,7 @@ class ScriptedPlayer:
 
     def __init__(self, seat, team, script, style, seed, addr, version=18, overrides=None,
                  name=None, on_verdict=None, vanish=None, pre_connect=None, post_connect=None,
-                 linger_gate=None, impatient=False):
+                 linger_gate=None, impatient=False, half_close=False):
         self.seat = seat
         self.team = team
         self.script = script            # list of {'calls': [...], 'cards': [...]} per board
@@ -102,6 +104,11 @@ class ScriptedPlayer:
         # (wrong protocol version) are made impatient; the table manager must answer, close and
         # go on accepting all the same.
         self.impatient = impatient
+        # half_close: after the last message this seat will ever have to send (its part of the
+        # 52nd card of the last board, or of the fourth pass of a passed-out last board) the
+        # program shuts down the sending direction of its connection (TCP half-close) and only
+        # reads from then on.  It is still owed everything the protocol entitles it to.
+        self.half_close = half_close
         # observations
         self.sent = []                  # raw lines sent
         self.received = []              # raw lines received
@@ -293,6 +300,18 @@ class ScriptedPlayer:
             self.offended = True
             raise _Stop()
 
+    def _maybe_half_close(self, b, phase, index):
+        if not self.half_close or b != len(self.script) - 1:
+            return
+        calls = self.script[b]['calls']
+        passed_out = len(calls) == 4 and all(c == 'Pass' for c in calls)
+        if (phase == 'call' and passed_out and index == 3) or (phase == 'card' and index == 51):
+            import socket as _s
+            self.sock.shutdown(_s.SHUT_WR)
+            s = core_current_sim()
+            if s is not None:
+                s.count_fault('client.half_close')
+
     def _maybe_leave(self, key):
         if self.vanish_any is not None and self.vanish_any == key:
             self.sock.close()
@@ -327,9 +346,11 @@ class ScriptedPlayer:
                     call = 'Pass'
                 self.intents.append(('CALL', b, me, call))
                 self.send(self.call_line(call))
+                self._maybe_half_close(b, 'call', i)
                 a.apply(call)
             else:
                 self.send(self._sp(f"{self._name()} ready for {self._name(a.turn)}'s bid"))
+                self._maybe_half_close(b, 'call', i)
                 tok = self._expect('CALL')
                 if tok[1] != a.turn or not a.legal(tok[2]):
                     self.anomalies.append(f'relayed call {tok} not legal for {a.turn}')
@@ -372,10 +393,12 @@ class ScriptedPlayer:
                 pool.discard(card)
                 self.intents.append(('CARD', b, turn, card))
                 self.send(self.card_line(turn, card))
+                self._maybe_half_close(b, 'card', n)
             else:
                 who = 'dummy' if turn == dummy else self._name(turn)
                 self.send(self._sp(f"{self._name()} ready for {who}'s card to trick "
                                    f"{p.trick_no}"))
+                self._maybe_half_close(b, 'card', n)
                 tok = self._expect('CARD')
                 card = tok[2]
                 if tok[1] != turn:
